@@ -735,6 +735,39 @@ def c02e(F, R):
 
 
 # ============================================================================ C11
+def _reach_walk(f):
+    """the loop of mark_reachable that visits every node reachable from the entry, and the `iter_nexts` call it rests on:
+    `for n in cfg.iter_nexts(entry)`, or `let S = cfg.iter_nexts(entry).collect(); for n in <nodes>.filter(|n| S.contains(n))`
+    (the same set, walked in another order). -> [(loop, iter_nexts call)]"""
+    body = f["hir"]["value"]
+    out = []
+    sets = {}
+    for st in walk(body, pats=False):
+        if st.get("k") == "Let" and st["pat"].get("k") == "PBinding" and st.get("init") and mentions_call(st["init"], "iter_nexts") and mentions_call(st["init"], "collect"):
+            calls = [m for m in walk(st["init"], pats=False) if m.get("k") == "MethodCall" and m["name"] == "iter_nexts"]
+            only = all(m["name"] in ("iter_nexts", "collect", "clone") for m in walk(st["init"], pats=False) if m.get("k") == "MethodCall")
+            if calls and only:
+                sets[st["pat"]["name"]] = calls[0]
+    for lp in for_loops(body):
+        direct = [m for m in walk(lp["iter"], pats=False) if m.get("k") == "MethodCall" and m["name"] == "iter_nexts"]
+        if direct:
+            out.append((lp, direct[0]))
+            continue
+        for m in walk(lp["iter"], pats=False):
+            if m.get("k") == "MethodCall" and m["name"] == "filter" and m["args"]:
+                cl = peel(m["args"][0])
+                if cl.get("k") != "Closure":
+                    continue
+                b = peel(cl["body"])
+                while b.get("k") == "Block" and not b.get("stmts") and b.get("expr") is not None:
+                    b = peel(b["expr"])
+                if b.get("k") == "MethodCall" and b["name"] == "contains" and ekey(b["recv"]).lstrip("&*") in sets:
+                    ps = [x["name"] for p_ in cl.get("params") or [] for x in walk(p_) if x.get("k") == "PBinding"]
+                    if ps and ekey(b["args"][0]).lstrip("&*") == ps[0]:
+                        out.append((lp, sets[ekey(b["recv"]).lstrip("&*")]))
+    return out
+
+
 @rule("C11", "C11.a.membership-pairing", floor=2)
 def c11a(F, R):
     """in mark_reachable a node is pushed to the function's instruction list iff it is tagged with the function, and the walk follows successor edges from the entry"""
@@ -743,13 +776,12 @@ def c11a(F, R):
         raise Anchor("FunctionMarkupPass::mark_reachable not found")
     f = F.fn(p[0])
     nins = inherent_methods(F, CFGNODE)["insert_function"]
-    loops = [lp for lp in for_loops(f["hir"]["value"]) if mentions_call(lp["iter"], "iter_nexts")]
+    loops = _reach_walk(f)
     if len(loops) != 1:
-        R.bad("walk", f"UNEXTRACTABLE: expected one `for node in cfg.iter_nexts(entry)` loop, found {len(loops)}", f["sp"])
+        R.bad("walk", f"UNEXTRACTABLE: expected one loop over the nodes `cfg.iter_nexts(entry)` reaches, found {len(loops)}", f["sp"])
         return
-    lp = loops[0]
-    it = peel(lp["iter"])
-    arg = ekey(it["args"][0]) if it.get("args") else None
+    lp, it = loops[0]
+    arg = ekey(it["args"][0]).replace("Rc::clone(", "").replace("clone(", "").rstrip(")").lstrip("&") if it.get("args") else None
     entry_param = [x.get("name") for x in f["hir"]["params"]]
     if arg in entry_param:
         R.ok("walk-source", detail=f"walk starts at parameter `{arg}` along iter_nexts")
@@ -935,13 +967,13 @@ def c11d(F, R):
     p = [q for q in F.fns if q.endswith("FunctionMarkupPass::mark_reachable")]
     f = F.fn(p[0])
     # `returns = Some(node)` only in the else of `if let Some(ref prev_ret) = returns`
-    loops0 = [lp for lp in for_loops(f["hir"]["value"]) if mentions_call(lp["iter"], "iter_nexts")]
+    loops0 = [lp for lp, _ in _reach_walk(f)]
     lv = loops0[0]["pat"]["name"] if loops0 and loops0[0]["pat"].get("k") == "PBinding" else None
     cand = [n for n in walk(loops0[0]["body"], pats=False) if n.get("k") == "Assign" and peel(n["l"]).get("res_kind") == "Local"
             and any(short(x.get("res") or "") == "Some" for x in walk(n["r"], pats=False)) and any(x.get("res") == lv for x in walk(n["r"], pats=False) if x.get("k") == "Path")] if loops0 else []
     RET = ekey(cand[0]["l"]) if cand else "?"
     assigns = [n for n in walk(f["hir"]["value"]) if n.get("k") == "Assign" and ekey(n["l"]) == RET]
-    loops = [lp for lp in for_loops(f["hir"]["value"]) if mentions_call(lp["iter"], "iter_nexts")]
+    loops = loops0
     if len(loops) != 1:
         R.bad("walk", "UNEXTRACTABLE: reachability walk loop not found", f["sp"])
         return
